@@ -145,6 +145,23 @@ func runSlashHist(t *testing.T, in []string) string {
 			case "addfee":
 				extra = fmt.Sprintf(":id=%s:fee=%s:bond=%s", f[2], f[3], f[4])
 			}
+			if res == "rej" && (p.kind == "disp" || p.kind == "addfee") && br.InjectedN+i < len(br.Txs) {
+				// why a dispute transaction was rejected (class of the error text)
+				l := br.Txs[br.InjectedN+i].Log
+				if k := strings.LastIndex(l, "message index: 0: "); k >= 0 {
+					l = l[k+len("message index: 0: "):]
+				}
+				l = strings.Map(func(r rune) rune {
+					if r == ' ' || r == ':' || r == ',' || r == ';' || r == '|' || r == '=' || r == '\n' || r == '\t' || r == '\r' {
+						return '_'
+					}
+					return r
+				}, l)
+				if len(l) > 70 {
+					l = l[:70]
+				}
+				extra += ":why=" + l
+			}
 			hh.Out = append(hh.Out, fmt.Sprintf("X %s:%s:%s%s", p.kind, p.signer, res, extra))
 		}
 		hh.Out = append(hh.Out, dumpRepStake(c)...)
